@@ -225,6 +225,12 @@ def shared_state(u):
             for d in f.node.args.defaults + [x for x in f.node.args.kw_defaults if x is not None]:
                 if isinstance(d, MUTABLE_NODES):
                     u.ensure(False, f"mutable_default:{f.qualname}", desc=f"{f.qualname} has a mutable default argument {ast.unparse(d)}")
+                # a default that is COMPUTED (a call) is evaluated once, when the module is imported: every later call
+                # shares that value - process history (e.g. the time of import) leaks into each solve
+                if any(isinstance(c, ast.Call) and not (isinstance(c.func, ast.Name) and _is_package_class(repo, mod, c.func.id)) for c in ast.walk(d)):
+                    # (a default INSTANCE of a package class, e.g. `params=Params()`, is covered by the rule that nothing ever
+                    #  stores into the shared default object)
+                    u.ensure(False, f"default_argument_evaluated_once_at_import:{f.qualname}", desc=f"{f.qualname} has the default argument `{ast.unparse(d)}`: computed once at import time and shared by all later calls")
     # persistent helper objects (created once per Solver) hold no state that a solve could change: outside their
     # constructors their methods never store to self (functools.cached_property is the only sanctioned cache)
     PERSISTENT = {"pygradflow.transform.Transformation": {"__init__"}, "pygradflow.scale.ScaledProblem": {"__init__"}, "pygradflow.cons_problem.ConstrainedProblem": {"__init__", "create_slacks"},
@@ -411,6 +417,17 @@ def observer_frame(u):
                     par = parents.get(id(par))
                 ok = isinstance(par, (ast.Call, ast.Return, ast.Assign, ast.keyword, ast.Lambda))
                 u.ensure(ok, f"rcond_value_only_forwarded:{f.qualname}", desc=f"{f.qualname} uses the reported condition estimate `{n.id}` in `{ast.unparse(par)[:80] if par is not None else '?'}` (line {n.lineno}): the algorithm must not depend on what is only computed for reporting")
+    # (d') the verbosity of the logger is read by display code only: an algorithmic decision taken on the log level
+    # (an extra check switched on at DEBUG, a different branch when INFO is enabled) makes the solve depend on it
+    LEVEL_READERS = {"pygradflow.step.step_control.StepController.display_step"}
+    for f in in_scope_functions(u.repo):
+        if f.qualname.startswith("pygradflow.display"):
+            continue
+        for n in ast.walk(f.node):
+            if isinstance(n, ast.Attribute) and n.attr in ("isEnabledFor", "getEffectiveLevel", "level", "getLevelName", "disabled", "handlers") and isinstance(n.ctx, ast.Load):
+                base = ast.unparse(n.value)
+                if "log" in base.lower():
+                    u.ensure(f.qualname in LEVEL_READERS, f"log_level_read_outside_display_code:{f.qualname}", desc=f"{f.qualname}:{n.lineno} reads `{ast.unparse(n)}`: the logger's verbosity may steer display code only")
     # (e) callbacks receive the iterates and the verdict, nothing is read back
     cb = [n for n in ast.walk(loop) if isinstance(n, ast.Call) and ast.unparse(n.func) == "self.callbacks"]
     par = [p for p in ast.walk(loop) if any(c in cb for c in ast.iter_child_nodes(p))]
